@@ -83,7 +83,7 @@ def check_tree_state(ctx):
                    '%s acts on %s' % (site.what, 'containers of this call' if not bad else
                                       'state of the junction tree (%s): the next run of the search on the same object starts from the modified '
                                       'container' % ', '.join(bad)))
-    ctx.floor('in-place sites in the junction-tree methods', n, 15)
+    ctx.floor('in-place sites in the junction-tree methods', n, 8)
 
 
 def check_copies(ctx, bp):
